@@ -215,20 +215,91 @@ Proof.
   intros H. specialize (H 0 [2%Z] [[[1%Z]]; [[1%Z]]; [[1%Z]]] eq_refl). vm_compute in H. discriminate.
 Qed.
 
-(* ------------------------------------------------------------------ `if fixed_factors:` -- Python's truth value of the request as passed
-   a list / tuple is true iff non-empty; an ndarray of one element has the truth value of that element (array([0]) is false), an ndarray
-   of two or more elements has none (ValueError); the empty ndarray is false.  tucker tests the request as passed; the five drivers with
-   fixed_modes take list(fixed_modes) first, so for them every container is the list of its elements. *)
-Inductive container := CList | CTuple | CArray.
-Definition request_truth (c : container) (l : list Z) : res bool :=
-  match c with
-  | CArray => match l with [] => Ok false | [z] => Ok (negb (Z.eqb z 0)) | _ => Err end
-  | _ => Ok (negb (Nat.eqb (length l) 0))
-  end.
+(* ------------------------------------------------------------------ the gate in front of tucker's fixed-factor branch (Model: container,
+   request_truth, as_list, tucker_gate; tucker_gate_before_1ad6e15 is the old rule).  Since commit 1ad6e15 the request is turned into a
+   list before its truth value is taken, so for EVERY container the branch is entered iff the request has at least one entry. *)
+Theorem tucker_gate_any_iterable (c : container) (req : option (list Z)) :
+  tucker_gate c req = Ok (match req with Some (_ :: _) => true | _ => false end).
+Proof. destruct req as [[|z l]|]; reflexivity. Qed.
+Corollary tucker_gate_enters (c : container) (l : list Z) : tucker_gate c (Some l) = Ok true <-> l <> [].
+Proof. rewrite tucker_gate_any_iterable. destruct l; split; intros H; try discriminate; try reflexivity. now contradiction H. Qed.
+Corollary tucker_gate_container_free (c c' : container) req : tucker_gate c req = tucker_gate c' req.
+Proof. now rewrite !tucker_gate_any_iterable. Qed.
+
+(* the old rule, for the record: a tuple behaved as the list, a one-element ndarray as its entry, a longer ndarray raised *)
 Lemma request_truth_list_tuple l : request_truth CTuple l = request_truth CList l /\ (request_truth CList l = Ok true <-> l <> []).
 Proof. split; [reflexivity|]. destruct l; simpl; split; intros H; try discriminate; try reflexivity. now contradiction H. Qed.
-Lemma request_truth_array_single z : request_truth CArray [z] = Ok true <-> z <> 0%Z.
-Proof. simpl. destruct (Z.eqb_spec z 0); simpl; split; intros H; try discriminate; try reflexivity; try contradiction; try congruence. Qed.
-Lemma request_truth_array_witness :
-  request_truth CArray [0%Z] = Ok false /\ request_truth CList [0%Z] = Ok true /\ request_truth CArray [0%Z; 1%Z] = Err /\ request_truth CList [0%Z; 1%Z] = Ok true.
+Lemma gate_before_1ad6e15_witness :
+  tucker_gate_before_1ad6e15 CArray (Some [0%Z]) = Ok false /\ tucker_gate_before_1ad6e15 CList (Some [0%Z]) = Ok true /\
+  tucker_gate_before_1ad6e15 CArray (Some [0%Z; 1%Z]) = Err /\
+  tucker_gate CArray (Some [0%Z]) = Ok true /\ tucker_gate CArray (Some [0%Z; 1%Z]) = Ok true /\ tucker_gate CArray (Some []) = Ok false /\ tucker_gate CTuple None = Ok false.
 Proof. vm_compute. repeat split. Qed.
+
+(* the shape the translator produces from the current source, and the pre-1ad6e15 shape (no list()), which is not the model *)
+Definition tucker_gate_expect (c : container) (req : option (list Z)) : res bool :=
+  match req with None => Ok false | Some l => let c1 := CList in request_truth c1 l end.
+Ltac gate_tie := intros c req; destruct c; destruct req as [[|? [|? ?]]|]; reflexivity.
+Lemma tucker_gate_expect_ok : forall c req, tucker_gate_expect c req = tucker_gate c req.
+Proof. unfold tucker_gate_expect. gate_tie. Qed.
+Lemma tucker_gate_unlisted_differs : ~ (forall c req, tucker_gate_before_1ad6e15 c req = tucker_gate c req).
+Proof. intros H. specialize (H CArray (Some [0%Z])). vm_compute in H. discriminate. Qed.
+
+(* ------------------------------------------------------------------ partial_tucker / non_negative_tucker / non_negative_tucker_hals: the start
+   state.  Each calls initialize_tucker(..., init=init[, non_negative=True]) -- for a user-supplied (core, factors) this is Model.tucker_init --,
+   the non-negative variants then normalise `if normalize_factors:`, and n_iter_max sweeps follow (arbitrary functions here).  Both the
+   user-init branch of initialize_tucker and the drivers' code between that call and the loop are regenerated from the source
+   (tucker_init_src, tkd_start_src_<driver>) and proved equal to tucker_init / tkd_start on every run. *)
+Section TuckerDrivers.
+  Context {F : Type}.
+  Notation tks := (tensor F * list (@matrix F))%type.
+  Definition tkd_start (nn normalize : bool) (fabs : F -> F) (normf : tks -> tks) (core : tensor F) (fs : list (@matrix F)) : tks :=
+    let s := tucker_init nn fabs core fs in if normalize then normf s else s.
+  Fixpoint tkd_iterate (sweep : nat -> tks -> tks) (stop : nat -> tks -> bool) (budget it : nat) (s : tks) : tks :=
+    match budget with
+    | 0 => s
+    | S b => let s1 := sweep it s in if stop it s1 then s1 else tkd_iterate sweep stop b (S it) s1
+    end.
+  (* a driver whose start state is computed by `st` *)
+  Definition tkd_run_from (st : bool -> (F -> F) -> (tks -> tks) -> tensor F -> list (@matrix F) -> tks)
+      (normalize : bool) fabs normf sweep stop (budget : nat) core fs : tks :=
+    tkd_iterate sweep stop budget 0 (st normalize fabs normf core fs).
+  Definition tkd_start_agrees (st : bool -> (F -> F) -> (tks -> tks) -> tensor F -> list (@matrix F) -> tks) (nn uses_norm : bool) : Prop :=
+    forall normalize fabs normf core fs, st normalize fabs normf core fs = tkd_start nn (uses_norm && normalize) fabs normf core fs.
+
+  Theorem src_tkd_zero_budget st nn un : tkd_start_agrees st nn un ->
+    forall normalize fabs normf sweep stop core fs,
+    tkd_run_from st normalize fabs normf sweep stop 0 core fs = tkd_start nn (un && normalize) fabs normf core fs.
+  Proof. intros H; intros. unfold tkd_run_from. cbn [tkd_iterate]. apply H. Qed.
+
+  (* partial_tucker (non_negative absent, no normalisation): zero budget returns exactly the supplied (core, factors) *)
+  Theorem src_tkd_plain_zero_budget st : tkd_start_agrees st false false ->
+    forall normalize fabs normf sweep stop core fs, tkd_run_from st normalize fabs normf sweep stop 0 core fs = (core, fs).
+  Proof. intros H; intros. rewrite (src_tkd_zero_budget st false false H). reflexivity. Qed.
+
+  (* the non-negative variants with default normalisation on an entrywise non-negative initialisation (fabs x = x) *)
+  Theorem src_tkd_nonneg_zero_budget st un : tkd_start_agrees st true un ->
+    forall fabs normf sweep stop core fs,
+    (forall x, In x (data core) -> fabs x = x) ->
+    (forall A, In A fs -> forall row, In row A -> forall x, In x row -> fabs x = x) ->
+    tkd_run_from st false fabs normf sweep stop 0 core fs = (core, fs).
+  Proof.
+    intros H fabs normf sweep stop core fs Hc Hf. rewrite (src_tkd_zero_budget st true un H). rewrite andb_false_r.
+    unfold tkd_start. now apply tucker_init_feasible.
+  Qed.
+End TuckerDrivers.
+
+(* self-test: the shapes the translator produces today *)
+Definition tucker_init_expect {F : Type} (non_negative : bool) (fabs : F -> F) (core : tensor F) (factors : list (@matrix F)) :=
+  let factors1 := factors in
+  if non_negative then (let factors2 := map (abs_mat fabs) factors1 in let core3 := abs_tensor fabs core in (core3, factors2)) else (core, factors1).
+Lemma tucker_init_expect_ok : forall (F : Type) nn (fabs : F -> F) core fs, tucker_init_expect nn fabs core fs = tucker_init nn fabs core fs.
+Proof. intros F [] fabs core fs; reflexivity. Qed.
+Definition tkd_start_expect_nn {F : Type} (normalize : bool) (fabs : F -> F) (normf : tensor F * list (@matrix F) -> tensor F * list (@matrix F)) core factors :=
+  let s := tucker_init_expect true fabs core factors in if normalize then normf s else s.
+Ltac tkd_tie lem := intros normalize fabs normf core fs; unfold tkd_start; rewrite ?lem; destruct normalize; reflexivity.
+Lemma tkd_start_expect_nn_ok : forall F : Type, tkd_start_agrees (@tkd_start_expect_nn F) true true.
+Proof. intro F. unfold tkd_start_agrees, tkd_start_expect_nn. tkd_tie (@tucker_init_expect_ok F). Qed.
+Example tkd_example :
+  tkd_run_from (@tkd_start_expect_nn Z) false Z.abs (fun s => s) (fun _ s => s) (fun _ _ => false) 0 (mk [1; 1] [2%Z]) [[[1%Z]]; [[3%Z]]]
+  = (mk [1; 1] [2%Z], [[[1%Z]]; [[3%Z]]]).
+Proof. vm_compute. reflexivity. Qed.
